@@ -377,7 +377,7 @@ func runLegal(seed int64, n int, big bool) mon.Result {
 			id = 101 + r.Intn(900)
 		}
 		v10 := r.Intn(4) == 0
-		p, variant := GenPayload(r, PayloadCfg{ID: id, BodyLen: bodyLen(r, big), HashLines: true, V10: v10})
+		p, variant := GenPayload(r, PayloadCfg{ID: id, BodyLen: bodyLen(r, big), HashLines: true, V10: v10, Pretty: !big && r.Intn(5) == 0, Collide: r.Intn(4) == 0})
 		b.tags["variant="+variant] = true
 		b.obs["legal_frames"]++
 		if v10 {
